@@ -54,10 +54,23 @@ Lemma dec_prim_unfold f ls e p tag bs :
 Proof. reflexivity. Qed.
 
 Lemma enc_prim_unfold ls e p tag v : (forall b, v <> VBytes b) \/ p <> PBytes ->
-  enc ls e (TPrim p) tag v = (let* pl := prim_enc e p v in framed_enc ls false tag pl).
+  enc ls e (TPrim p) tag v = (let* pl := prim_enc e p v in framed_enc_p ls p tag pl).
 Proof.
-  intros H. destruct p; try reflexivity. destruct v; try reflexivity.
+  intros H. destruct p; try reflexivity. destruct v as [| |b| | | | |]; try reflexivity.
   destruct H as [H|H]; [exfalso; apply (H b); reflexivity|congruence].
+Qed.
+
+(* a payload that fits its field exactly is framed the same way whatever the primitive: there is no padding to place *)
+Lemma framed_enc_p_fit ls p tag pl : len_fits ls (blen pl) = true -> framed_enc_p ls p tag pl = framed_enc ls false tag pl.
+Proof.
+  intros Hf. destruct ls as [|n| | | |]; try reflexivity. destruct p; try reflexivity.
+  cbn [len_fits] in Hf. apply N.eqb_eq in Hf. unfold framed_enc_p, framed_enc. cbn [len_ser]. rewrite Hf.
+  destruct (n <=? n) eqn:E; [|lia]. cbn [bind]. rewrite N.sub_diag. change (zeros 0) with (@nil N). rewrite app_nil_r. reflexivity.
+Qed.
+(* and so is everything that is not text behind a fixed width *)
+Lemma framed_enc_p_other ls p tag pl : (forall n, ls <> LFixed n) \/ p <> PString -> framed_enc_p ls p tag pl = framed_enc ls false tag pl.
+Proof.
+  intros [H|H]; destruct ls as [|n| | | |]; try reflexivity; destruct p; try reflexivity; [exfalso; apply (H n); reflexivity|congruence].
 Qed.
 
 (* every delimiting style, payload that fits exactly *)
@@ -69,7 +82,7 @@ Proof.
   intros Hd Hf Ht [He Hdec] Hb.
   destruct (framed_roundtrip ls false tag (prim_dec e p) pl v [] Hd Hf Ht Hdec) as [g [Hg _]].
   exists g. split.
-  - rewrite enc_prim_unfold by exact Hb. rewrite He. cbn [bind]. exact Hg.
+  - rewrite enc_prim_unfold by exact Hb. rewrite He. cbn [bind]. rewrite framed_enc_p_fit by exact Hf. exact Hg.
   - intros f r. rewrite dec_prim_unfold.
     destruct (framed_roundtrip ls false tag (prim_dec e p) pl v r Hd Hf Ht Hdec) as [g' [Hg' Hr]].
     rewrite Hg in Hg'. injection Hg' as <-. exact Hr.
@@ -170,7 +183,7 @@ Proof.
   set (tg := match tag with None => [] | Some t => tag_enc false t end).
   exists (tg ++ zeros (k - blen pl) ++ pl). split.
   - rewrite enc_prim_unfold by (right; discriminate). cbn [prim_enc]. rewrite He. cbn [bind].
-    unfold framed_enc, len_ser. destruct (blen pl <=? k) eqn:E; [|lia]. reflexivity.
+    unfold framed_enc_p, framed_enc, len_ser. destruct (blen pl <=? k) eqn:E; [|lia]. reflexivity.
   - intros f r. rewrite dec_prim_unfold. unfold framed_dec. rewrite <- !app_assoc.
     pose proof (tag_strip false tag (zeros (k - blen pl) ++ pl ++ r) Ht) as T.
     assert (L : blen (zeros (k - blen pl) ++ pl) = k) by (rewrite blen_app, blen_zeros; lia).
